@@ -151,7 +151,7 @@ impl Profile {
                 p.resp_weights = [8, 1, 2, 2, 1, 4, 4];
                 p.hist_len = (1, 11);
             }
-            "C08" => {
+            "C08" | "C19" => {
                 p.name = "C08-errors";
                 p.pct_inject = 12;
                 p.pct_thread = 30;
